@@ -584,12 +584,14 @@ def labels_gen_replay():
         sys.path.insert(0, src)
     from stationeers_pytrapic.generate_code import CompilerPassGatherCode as G
     g = G.__new__(G)
-    stat = {"texts": len(gen), "absolute_equal": 0, "relative_equal": 0, "absolute_differ": [], "relative_differ": []}
+    from stationeers_pytrapic.generate_code import remove_unused_labels
+    stat = {"texts": len(gen), "absolute_equal": 0, "relative_equal": 0, "labelled_equal": 0, "absolute_differ": [], "relative_differ": [], "labelled_differ": []}
     for c in gen:
         text = "\n".join((l["lab"] + ":") if l["lab"] else " ".join(l["toks"]) for l in c["kept"])
-        for mode, want, rel in (("absolute", c["abs"], False), ("relative", c["rel"], True)):
+        for mode, want, rel in (("absolute", c["abs"], False), ("relative", c["rel"], True), ("labelled", c["used"], None)):
             try:
-                got = [ln.split() for ln in g.remove_labels(text, relative_numbers=rel).split("\n") if ln.strip()]
+                out = remove_unused_labels(text) if rel is None else g.remove_labels(text, relative_numbers=rel)
+                got = [ln.split() for ln in out.split("\n") if ln.strip()]
             except Exception as e:
                 got = ["raised " + type(e).__name__]
             if got == [list(w) for w in want]:
@@ -598,7 +600,7 @@ def labels_gen_replay():
                 stat[mode + "_differ"].append({"text": text, "spec": want, "code": got})
             else:
                 stat[mode + "_differ"].append(None)
-    for mode in ("absolute", "relative"):
+    for mode in ("absolute", "relative", "labelled"):
         n = len(stat[mode + "_differ"])
         stat[mode + "_differ_count"] = n
         stat[mode + "_differ"] = [x for x in stat[mode + "_differ"] if x]
@@ -700,7 +702,7 @@ def check_c05(tier, t0):
     # spec -> code: every small text Labels.tla generates, through the real method in both modes (counted, not an alarm:
     # the texts use the compiler's line shapes and label forms but are not compiler output)
     gen_stat = labels_gen_replay()
-    for mode in ("absolute", "relative"):
+    for mode in ("absolute", "relative", "labelled"):
         if gen_stat[mode + "_differ_count"]:
             print("NOTE remove_labels (%s mode) differs from Labels.tla on %d of %d generated texts, first: %s"
                   % (mode, gen_stat[mode + "_differ_count"], gen_stat["texts"], json.dumps(gen_stat[mode + "_differ"][0])))
